@@ -37,7 +37,7 @@ def run(tier="quick", only_key=None):
                 o = it.call(FI, [u], {"domain_extent": L})
                 x = Tens((D,), [S(f"x{j}") for j in range(D)])
                 res = it.call(o, [x])
-                S_rec = it.call(bsa, [D, N], {"mode": "reconstruction"}).data[0]
+                S_rec = C.scaling(D, "reconstruction", parity)
                 fshape = (N,) * (D - 1) + (H_of(parity),)
                 phase = alg.exp(sum((alg.I * (2 * alg.PI / L) * k * S(f"x{j}") for j, k in enumerate(C.kvec(D))), Poly()))
                 ref = Tens((Cn,), [alg.real(SO.sym_sum(C.fft(u.data[c], D) / S_rec * phase, fshape)) for c in range(Cn)])
